@@ -34,8 +34,8 @@ Proof.
 Qed.
 
 Lemma impl_refines_ref_exn_l : forall t, HS.wf t = true ->
-  forall fuel p, wf p = true -> clean p = true -> run_impl5 t fuel p = run_ref5 t fuel p.
-Proof. intros t W fuel p Wp Cp. apply impl_refines_ref_l; auto. apply cmatch_eq. exact W. Qed.
+  forall fuel p, wf p = true -> run_impl5 t fuel p = run_ref5 t fuel p.
+Proof. intros t W fuel p Wp. apply impl_refines_ref_wf_l; auto. apply cmatch_eq. exact W. Qed.
 
 (* ---------- balanced event segments ---------- *)
 Lemma bal_app a b d : bal (a ++ b)%list d = match bal a d with Some d' => bal b d' | None => None end.
